@@ -43,8 +43,51 @@ func (x *runner) chainSweep(plan *Plan) bool {
 		if !x.streamWith(plan, sp) {
 			return false
 		}
+		if decl > 0 && idx%7 == 0 {
+			// the same pre-encoded stream by Put of a *Stream
+			if !x.putDeclared(sp.declShape, sp.decl) {
+				return false
+			}
+		}
 	}
 	return true
+}
+
+// putDeclared: Put of a *Stream whose dictionary declares the chain its data is encoded with.
+func (x *runner) putDeclared(shape int, chain []pdf.Filter) bool {
+	ref, ok := x.alloc()
+	if !ok {
+		return false
+	}
+	decl := make([]pdf.Filter, len(chain))
+	for i := range decl {
+		decl[i] = forVersion(x.cfg.V(), chain[i])
+	}
+	d := pdf.Dict{"Kind": pdf.Name("PutDeclared")}
+	declare(d, x.cfg.V(), shape, decl)
+	body := declBody(x.r)
+	data, _ := encodeChain(x.cfg.V(), decl, body)
+	x.res.PreFilter = true
+	if !x.put(ref, pdf.NewStream(d, data)) {
+		return false
+	}
+	if !x.lastRefused {
+		// Put recorded the data as written; what all of the chain decodes to is the body
+		x.res.Want[ref] = &Want{Obj: Norm(stripStreamKeys(d)), IsStream: true, Data: body, Declared: true, NArgs: 0, Pre: data}
+	}
+	return true
+}
+
+// ShortParmsSpecials: declared chains whose /DecodeParms array is shorter (or longer) than
+// /Filter, under 0, 1 and 2 filters of OpenStream and by Put of a *Stream.  Only for C02: written
+// as they are (no filter passed) these dictionaries are the caller's, and C03's strict validator
+// wants one /DecodeParms entry per filter.
+func ShortParmsSpecials() []Special {
+	var l []Special
+	for sh := 4; sh <= 6; sh++ {
+		l = append(l, Special{[]Config{{VIdx: 7}, {VIdx: 4, HR: true}, {VIdx: 5, Encrypt: true}}[sh-4], Plan{ChainDecl: sh + 1, ChainFrom: 0, ChainTo: 7 * len(DeclShapes[sh]), MaxOps: -1}})
+	}
+	return l
 }
 
 // boundaryTail is a run of values in whose written form every kind of token that needs
